@@ -37,6 +37,13 @@ class SpecDom(Domain):
         t = norm(test)
         if t in self.assume:
             return [(self.assume[t], st)]
+        # the same atom written with the opposite polarity (`x is not None` for an assumption about `x is None`, `not a`)
+        if isinstance(test, ast.Compare) and len(test.ops) == 1:
+            from .ir import _FLIP
+            if type(test.ops[0]) in _FLIP:
+                t2 = norm(ast.Compare(left=test.left, ops=[_FLIP[type(test.ops[0])]()], comparators=test.comparators))
+                if t2 in self.assume:
+                    return [(not self.assume[t2], st)]
         if isinstance(test, ast.Compare) and len(test.ops) == 1 and self.subject is not None:
             l, op, r = test.left, test.ops[0], test.comparators[0]
             if norm(l) == self.subject:
